@@ -204,37 +204,24 @@ def lenC (bits : AMap.T String Nat) : KsBytes.BCrypto where
   walletId := KsCodec.asc
   nameOf := fun _ => none
 
-/-- the public values: fixed formats, the counters of the wallet record, 111-character extended public keys, 33-byte keys -/
-def pubVals (wal : AMap.T String (Secrets.WRec × Secrets.AM)) : KsBytes.PubVal := fun K =>
-  let r := ((AMap.get wal K.1).map (·.1)).getD default
-  match K.2 with
-  | .aid => [0]
-  | .kver => [0]
-  | .coinType => KsCodec.u32Bytes MW.Gen.Keystore.coinMainnet
-  | .account => KsCodec.u32Bytes MW.Gen.Keystore.walletUsage
-  | .exNum => KsCodec.u32Bytes r.nExt
-  | .inNum => KsCodec.u32Bytes r.nInt
-  | .acct _ => List.replicate 111 0
-  | .exb => List.replicate 111 0
-  | .inb => List.replicate 111 0
-  | .pubk _ _ => List.replicate 33 0
-  | _ => []
+/-- the public data: 111-character extended public keys, 33-byte public keys; the coin type of the main net -/
+def pubData : KsBytes.PubData where
+  coin := MW.Gen.Keystore.coinMainnet
+  plain := fun K => match K.2 with
+    | .acct _ => List.replicate 111 0
+    | .exb => List.replicate 111 0
+    | .inb => List.replicate 111 0
+    | .pubk _ _ => List.replicate 33 0
+    | _ => []
 
 def applyTree (st : St) (r : Except KsCodec.Err KsBytes.Tree) : St :=
   match r with
   | .ok t => { st with tree := t }
   | .error _ => { st with treeOk := false }
 
-/-- run the byte-level installer for the account `w` the symbolic step has just installed (nonce `n` before the step) -/
-def installB (st : St) (w : String) (privParams mkPriv : Secrets.Term) (p : String) (n k0 : Nat) : St :=
-  match AMap.get st.ks.wal w with
-  | none => { st with treeOk := false }
-  | some (r, _) =>
-    let C := lenC st.bits
-    let ρ := pubVals st.ks.wal
-    applyTree st (KsBytes.initAcctBucketB st.tree
-      (KsBytes.acctInOf C ρ MW.Gen.Keystore.coinMainnet w r.ent p r.nExt r.nInt privParams mkPriv
-        (Secrets.paramsT n st.ks.pubPass) (Secrets.masterKey n st.ks.pubPass) k0 (k0 + 1) (k0 + 2)))
+/-- the byte-level machine `KsBytes.stepB` on the state BEFORE the symbolic step of the same operation -/
+def byteStep (st : St) (bits : AMap.T String Nat) (op : Secrets.Op) : St :=
+  applyTree { st with bits := bits } (KsBytes.stepB (lenC bits) pubData st.ks st.tree op)
 
 def printableB (b : Bytes) : Bool :=
   !b.isEmpty && b.all (fun c => (97 ≤ c.toNat && c.toNat ≤ 122) || (65 ≤ c.toNat && c.toNat ≤ 90) || (48 ≤ c.toNat && c.toNat ≤ 57))
@@ -280,9 +267,8 @@ def step (st : St) (args : List String) : St × String :=
   | ["wallet", w] =>
     let (ks, o) := Secrets.create st.ks w (defaultPass w) 128
     if o = .ok then
-      let n := st.ks.nonce
-      let st1 := { st with ks := ks, led := ledAddWallet st.led w, bits := AMap.put st.bits w 128 }
-      (installB st1 w (Secrets.paramsT (n + 1) (defaultPass w)) (Secrets.masterKey (n + 1) (defaultPass w)) (defaultPass w) n (n + 2), "ok")
+      let st1 := byteStep st (AMap.put st.bits w 128) (.create w (defaultPass w) 128)
+      ({ st1 with ks := ks, led := ledAddWallet st.led w }, "ok")
     else ({ st with ks := ks }, o.render)
   | ["kcreate", w, p, b] =>
     match b.toNat? with
@@ -290,18 +276,16 @@ def step (st : St) (args : List String) : St × String :=
     | some bits =>
       let (ks, o) := Secrets.create st.ks w p bits
       if o = .ok then
-        let n := st.ks.nonce
-        let st1 := { st with ks := ks, led := ledAddWallet st.led w, bits := AMap.put st.bits w (if bits = 0 then 128 else bits) }
-        (installB st1 w (Secrets.paramsT (n + 1) p) (Secrets.masterKey (n + 1) p) p n (n + 2), "ok")
+        let st1 := byteStep st (AMap.put st.bits w (if bits = 0 then 128 else bits)) (.create w p bits)
+        ({ st1 with ks := ks, led := ledAddWallet st.led w }, "ok")
       else ({ st with ks := ks }, o.render)
   | ["addr", w, a, cl] =>
     if (AMap.get st.addrIdx a).isSome then (st, "err") else
     let idx := match AMap.get st.ks.wal w with | some (r, _) => r.nExt | none => 0
     let (ks, o) := Secrets.newAddr st.ks w
     if o = .ok then
-      let st1 := { st with ks := ks, led := (Led.step st.led ["addr", w, a, cl]).1, addrIdx := AMap.put st.addrIdx a (w, idx) }
-      let pk := KsBytes.valBytes (lenC st.bits) (pubVals ks.wal) (w, .pubk 0 idx) (Secrets.dbGet ks.db w (.pubk 0 idx))
-      (applyTree st1 (KsBytes.newAddrB st.tree (KsCodec.asc w) idx pk), "ok")
+      let st1 := byteStep st st.bits (.newAddr w)
+      ({ st1 with ks := ks, led := (Led.step st.led ["addr", w, a, cl]).1, addrIdx := AMap.put st.addrIdx a (w, idx) }, "ok")
     else (st, "err")
   | ["restart"] =>
     let (ks, o) := Secrets.restart st.ks st.ks.pubPass
@@ -314,25 +298,14 @@ def step (st : St) (args : List String) : St × String :=
     let (st', o) := ksStep st (.exportKS w p k)
     (st', withSpec o (gateSpec st w p))
   | ["kimport", k, p] =>
-    let (st1, o) := ksStep st (.importKS k p)
-    if o = "ok" then
-      match AMap.get st.ks.exports k with
-      | some x =>
-        let n := st.ks.nonce
-        (installB st1 x.wallet x.privParams ((Secrets.deriveKey x.privParams p).getD (.pub "missing")) p n (n + 1), o)
-      | none => ({ st1 with treeOk := false }, o)
-    else (st1, o)
+    ksStep (byteStep st st.bits (.importKS k p)) (.importKS k p)
   | ["kimportmn", w, p, src, e, i] =>
     match e.toNat?, i.toNat? with
     | some ext, some int =>
       let (ks, o) := Secrets.importMn st.ks w p src ext int
       let led := match o with | .okName n => ledAddWallet st.led n | _ => st.led
-      let st1 := { st with ks := ks, led := led }
-      match o with
-      | .okName name =>
-        let n := st.ks.nonce
-        (installB st1 name (Secrets.paramsT (n + 1) p) (Secrets.masterKey (n + 1) p) p n (n + 2), o.render)
-      | _ => (st1, o.render)
+      let st1 := byteStep st st.bits (.importMn w p src ext int)
+      ({ st1 with ks := ks, led := led }, o.render)
     | _, _ => (st, "bad-op")
   | ["kimportmnbad", _, _, src, _, _] =>
     -- a restore from a mis-typed sentence is refused, changes nothing (refusal_inert) and the error carries no term
@@ -344,14 +317,10 @@ def step (st : St) (args : List String) : St × String :=
     (st', withSpec o (gateSpec st w p))
   | ["kremove", w, p] =>
     if (AMap.get st.ks.idents w).isNone then (st, "bad-op") else
-    let (st', o) := ksStep st (.remove w p)
-    let st' := if o = "ok" then { st' with tree := KsBytes.removeB st'.tree (KsCodec.asc w) } else st'
+    let (st', o) := ksStep (byteStep st st.bits (.remove w p)) (.remove w p)
     (st', withSpec o (gateSpec st w p))
   | ["kchpub", o, n] =>
-    let (st1, out) := ksStep st (.chpub o n)
-    if out = "ok" then
-      (applyTree st1 (KsBytes.chpubAllB st.tree ((KsBytes.chpubSteps st.ks o).map (KsBytes.chpubStepB (lenC st.bits) (pubVals st.ks.wal) n))), out)
-    else (st1, out)
+    ksStep (byteStep st st.bits (.chpub o n)) (.chpub o n)
   | ["kchpriv", w, o, n] =>
     -- the harness selects the wallet first: a name it has never bound fails there
     if (AMap.get st.ks.idents w).isNone then (st, "err:use") else ksStep st (.chpriv w o n)
@@ -394,7 +363,7 @@ def step (st : St) (args : List String) : St × String :=
     -- MODEL: the tree the byte-level writers built; SPEC: the concretisation (`bytesOf` at `loc`) of the symbolic database –
     -- equal by MW.Props.C05Abs (`*_refines`: the tree REPRESENTS the database)
     let C := lenC st.bits
-    let ρ := pubVals st.ks.wal
+    let ρ := KsBytes.pubValsOf pubData st.ks.wal
     let names := st.ks.idents.map (·.1)
     let sp := Led.joinSorted (st.ks.db.map (fun e =>
       layoutItem names (KsBytes.loc C e.1).1 (KsBytes.loc C e.1).2 (KsBytes.valBytes C ρ e.1 e.2)))
